@@ -265,6 +265,9 @@ pub struct Sim {
     pub last_verify: String,
     /// manifest history as the harness saw it: per fragment file name the number of edits already
     /// recorded, and per SST digest the (edit ordinal, '+'|'-') events in order
+    /// what the observer saw at the labelled points inside flushes and compactions: complaints
+    pub probe_failures: Vec<String>,
+    pub probes_run: u64,
     pub frag_seen: BTreeMap<String, usize>,
     pub sst_events: BTreeMap<String, Vec<(u64, char)>>,
     pub edit_ordinal: u64,
@@ -288,11 +291,78 @@ fn err_class(e: &lsmtk::SError) -> String {
     out
 }
 
+/// what the observer checks at a labelled point inside a flush / compaction, on the thread that
+/// runs it: every key still reads as the sequential map says (point reads and a full scan — this
+/// is the window in which the immutable memtable, and then the immutable memtable *and* its file,
+/// are visible), and a flushed memtable's log is still in the store's root until its SST is in
+/// the manifest.
+fn install_probe(kvs: &KeyValueStore, root: &str, oracle: &BTreeMap<Vec<u8>, Option<Vec<u8>>>, sink: std::rc::Rc<std::cell::RefCell<(u64, Vec<String>)>>) {
+    let kvs_ptr = kvs as *const KeyValueStore;
+    let oracle = oracle.clone();
+    let root = root.to_string();
+    let logs_at_start: Vec<String> = std::fs::read_dir(&root).map(|rd| rd.flatten().map(|e| e.file_name().to_string_lossy().to_string()).filter(|n| n.starts_with("log.")).collect()).unwrap_or_default();
+    lsmtk::verif::set_probe(Some(Box::new(move |tag: &'static str| {
+        // SAFETY: the probe is cleared before `kvs` is dropped (see `with_probe`)
+        let kvs = unsafe { &*kvs_ptr };
+        let mut sink = sink.borrow_mut();
+        sink.0 += 1;
+        for (k, want) in oracle.iter() {
+            let mut tomb = false;
+            match kvs.load(k, &mut tomb) {
+                Ok(got) => {
+                    if &got != want {
+                        sink.1.push(format!("at {}: key {} reads {:?} want {:?}", tag, hex(k), got.as_ref().map(|v| hex(v)), want.as_ref().map(|v| hex(v))));
+                    }
+                }
+                Err(e) => sink.1.push(format!("at {}: key {} load error {:?}", tag, hex(k), e).replace('\n', " ")),
+            }
+        }
+        let live: Vec<(Vec<u8>, Vec<u8>)> = oracle.iter().filter_map(|(k, v)| v.as_ref().map(|v| (k.clone(), v.clone()))).collect();
+        let scan = (|| -> Result<Vec<(Vec<u8>, Vec<u8>)>, lsmtk::SError> {
+            let mut c = kvs.range_scan::<&[u8]>(&Bound::Unbounded, &Bound::Unbounded)?;
+            c.seek_to_first()?;
+            let mut out = vec![];
+            loop {
+                c.next()?;
+                match c.key_value() {
+                    Some(kv) => out.push((kv.key.to_vec(), kv.value.map(|v| v.to_vec()).unwrap_or_default())),
+                    None => break,
+                }
+            }
+            Ok(out)
+        })();
+        match scan {
+            Ok(s) if s == live => {}
+            Ok(s) => sink.1.push(format!("at {}: full scan shows {} entries, want {}", tag, s.len(), live.len())),
+            Err(e) => sink.1.push(format!("at {}: scan error {:?}", tag, e).replace('\n', " ")),
+        }
+        if tag == "flush.rotated" || tag == "ingest.before_manifest" {
+            // the log of the memtable being flushed must still be replayable
+            for l in &logs_at_start {
+                if !std::path::Path::new(&format!("{}/{}", root, l)).exists() {
+                    sink.1.push(format!("at {}: {} left the store root before its SST was in the manifest", tag, l));
+                }
+            }
+        }
+    })));
+}
+
 impl Sim {
+    fn with_probe<T>(&mut self, f: impl FnOnce(&Sim) -> T) -> T {
+        let sink = std::rc::Rc::new(std::cell::RefCell::new((0u64, Vec::<String>::new())));
+        install_probe(self.kvs(), &self.root, &self.oracle, sink.clone());
+        let r = f(self);
+        lsmtk::verif::set_probe(None);
+        let (n, fails) = std::mem::take(&mut *sink.borrow_mut());
+        self.probes_run += n;
+        self.probe_failures.extend(fails);
+        r
+    }
+
     pub fn open(root: &str, cfg: &Cfg) -> Result<Sim, String> {
         let opts = cfg.options(root);
         let kvs = KeyValueStore::open(opts).map_err(|e| err_class(&e))?;
-        Ok(Sim { root: root.to_string(), cfg: cfg.clone(), kvs: Some(kvs), oracle: BTreeMap::new(), flushes: 0, compactions: 0, reopens: 0, stalled_unselectable: 0, verifier_passes: 0, verifier_backoffs: 0, last_verify: String::new(), frag_seen: BTreeMap::new(), sst_events: BTreeMap::new(), edit_ordinal: 0, chosen: vec![] })
+        Ok(Sim { root: root.to_string(), cfg: cfg.clone(), kvs: Some(kvs), oracle: BTreeMap::new(), flushes: 0, compactions: 0, reopens: 0, stalled_unselectable: 0, verifier_passes: 0, verifier_backoffs: 0, last_verify: String::new(), probe_failures: vec![], probes_run: 0, frag_seen: BTreeMap::new(), sst_events: BTreeMap::new(), edit_ordinal: 0, chosen: vec![] })
     }
 
     pub fn kvs(&self) -> &KeyValueStore {
@@ -320,7 +390,7 @@ impl Sim {
         for _ in 0..n {
             let before = self.dump()?;
             lsmtk::verif::set_single_step(Some(1));
-            let r = self.kvs().compaction_thread();
+            let r = self.with_probe(|s| s.kvs().compaction_thread());
             lsmtk::verif::set_single_step(None);
             let chosen = lsmtk::verif::take_chosen();
             let k = chosen.len() as u64;
@@ -347,7 +417,7 @@ impl Sim {
         }
         self.kvs().verif_request_flush();
         lsmtk::verif::set_single_step(Some(0));
-        let r = self.kvs().memtable_thread();
+        let r = self.with_probe(|s| s.kvs().memtable_thread());
         lsmtk::verif::set_single_step(None);
         r.map_err(|e| format!("flush-error:{}", err_class(&e)))?;
         self.flushes += 1;
@@ -362,7 +432,7 @@ impl Sim {
                 return Ok(());
             }
             lsmtk::verif::set_single_step(Some(0));
-            let r = self.kvs().memtable_thread();
+            let r = self.with_probe(|s| s.kvs().memtable_thread());
             lsmtk::verif::set_single_step(None);
             r.map_err(|e| format!("flush-error:{}", err_class(&e)))?;
             self.flushes += 1;
